@@ -24,14 +24,16 @@
 //! history is sequential: a blocking send into a full buffer would never return).
 extern crate iceoryx2_bb_loggers;
 
+use std::cell::RefCell;
 use std::io::Write;
+use std::rc::Rc;
 use std::panic::{catch_unwind, AssertUnwindSafe};
 
 use iceoryx2::active_request::ActiveRequest;
 use iceoryx2::pending_response::PendingResponse;
 use iceoryx2::port::client::{Client, RequestSendError};
 use iceoryx2::port::server::Server;
-use iceoryx2::port::{LoanError, ReceiveError, SendError};
+use iceoryx2::port::{BackpressureAction, LoanError, ReceiveError, SendError};
 use iceoryx2::prelude::*;
 use iceoryx2::request_mut::RequestMut;
 use iceoryx2::response::Response;
@@ -78,7 +80,7 @@ impl Out {
 #[derive(Clone, Copy, Debug, PartialEq)]
 pub enum Op {
     Cc(usize), Cd(usize), Sc(usize), Sd(usize),
-    L(usize), S, Lx, Q(usize), Qd(usize),
+    L(usize), S, Lx, Q(usize), Qd(usize), Qh(usize, usize),
     Pr(usize), Pd(usize), Ph(usize),
     Rx(usize),
     Sr(usize), Sh(usize),
@@ -91,7 +93,7 @@ impl Op {
             Op::Cc(i) => format!("cc {}", i), Op::Cd(i) => format!("cd {}", i),
             Op::Sc(i) => format!("sc {}", i), Op::Sd(i) => format!("sd {}", i),
             Op::L(i) => format!("l {}", i), Op::S => "s".into(), Op::Lx => "lx".into(),
-            Op::Q(i) => format!("q {}", i), Op::Qd(i) => format!("qd {}", i),
+            Op::Q(i) => format!("q {}", i), Op::Qd(i) => format!("qd {}", i), Op::Qh(i, j) => format!("qh {} {}", i, j),
             Op::Pr(k) => format!("pr {}", k), Op::Pd(k) => format!("pd {}", k), Op::Ph(k) => format!("ph {}", k),
             Op::Rx(m) => format!("rx {}", m),
             Op::Sr(j) => format!("sr {}", j), Op::Sh(j) => format!("sh {}", j),
@@ -104,7 +106,7 @@ impl Op {
         let a = |k: usize| -> usize { v.get(k).map(|x| x.parse().expect("numeric op argument")).unwrap_or(0) };
         match v[0] {
             "cc" => Op::Cc(a(1)), "cd" => Op::Cd(a(1)), "sc" => Op::Sc(a(1)), "sd" => Op::Sd(a(1)),
-            "l" => Op::L(a(1)), "s" => Op::S, "lx" => Op::Lx, "q" => Op::Q(a(1)), "qd" => Op::Qd(a(1)),
+            "l" => Op::L(a(1)), "s" => Op::S, "lx" => Op::Lx, "q" => Op::Q(a(1)), "qd" => Op::Qd(a(1)), "qh" => Op::Qh(a(1), a(2)),
             "pr" => Op::Pr(a(1)), "pd" => Op::Pd(a(1)), "ph" => Op::Ph(a(1)),
             "rx" => Op::Rx(a(1)),
             "sr" => Op::Sr(a(1)), "sh" => Op::Sh(a(1)),
@@ -140,8 +142,10 @@ fn alphabet(name: &str) -> Vec<Op> {
         "hint" => vec![Ph(0), Ad(0), Ad(1), Pd(0), As(0), As(1), Pr(0), Q(0), Sr(0), Rx(0)],
         // expired connection with several channels (behind a prologue with two answered requests)
         "sib" => vec![Ad(0), Sd(0), Pr(0), Pr(1), Rx(0), Pd(0), As(0), Sc(0)],
+        // backpressure handler scripts: while the delivery to one server stalls, the handler lets a server poll
+        "bph" => vec![Q(0), Qh(0, 0), Qh(0, 1), Pd(0), Sr(0), Sr(1), Ad(0), As(0), Pr(0), Rx(0)],
         // everything (random histories)
-        "full" => vec![Cc(0), Cc(1), Cd(0), Cd(1), Sc(0), Sc(1), Sd(0), Sd(1), L(0), L(1), S, Lx, Q(0), Q(1), Qd(0), Qd(1),
+        "full" => vec![Cc(0), Cc(1), Cd(0), Cd(1), Sc(0), Sc(1), Sd(0), Sd(1), L(0), L(1), S, Lx, Q(0), Q(1), Qd(0), Qd(1), Qh(0, 0), Qh(0, 1), Qh(1, 0), Qh(1, 1),
                        Pr(0), Pr(1), Pr(2), Pd(0), Pd(1), Pd(2), Ph(0), Rx(0), Rx(1), Sr(0), Sr(1), Sh(0), Sh(1),
                        As(0), As(1), As(2), Al(0), Al(1), Aw, Ax, Ad(0), Ad(1), Ad(2)],
         o => panic!("unknown alphabet {}", o),
@@ -202,26 +206,36 @@ fn num_after(s: &str, key: &str) -> Option<u64> {
     digits.parse().ok()
 }
 
+/// the script of the client's backpressure handler: at its next invocation server `script` polls
+/// (has_requests, receive); `result` = what it saw
+pub struct HState {
+    script: Option<usize>,
+    result: Option<String>,
+}
+struct SendWrap<T>(T);
+unsafe impl<T> Send for SendWrap<T> {}
+
 struct Case<S: Service> {
     clients: [Option<Cl<S>>; 2],
-    servers: [Option<Sv<S>>; 2],
+    servers: Rc<RefCell<[Option<Sv<S>>; 2]>>,
     loans: Vec<(u64, ReqM<S>)>,
     pendings: Vec<(u64, Pend<S>)>,
-    actives: Vec<(u64, usize, u64, Act<S>)>, // request hid (payload), server slot, next response seq
+    actives: Rc<RefCell<Vec<(u64, usize, u64, Act<S>)>>>, // request hid (payload), server slot, next response seq
+    hstate: Rc<RefCell<HState>>,
     resps: Vec<Resp<S>>,
     rloans: Vec<RespM<S>>,
     next_hid: u64,
 }
 
-impl<S: Service> Case<S> {
+impl<S: Service + 'static> Case<S> {
     fn new() -> Self {
-        Case { clients: [None, None], servers: [None, None], loans: vec![], pendings: vec![], actives: vec![], resps: vec![], rloans: vec![], next_hid: 0 }
+        Case { clients: [None, None], servers: Rc::new(RefCell::new([None, None])), loans: vec![], pendings: vec![], actives: Rc::new(RefCell::new(vec![])), hstate: Rc::new(RefCell::new(HState { script: None, result: None })), resps: vec![], rloans: vec![], next_hid: 0 }
     }
 
     /// read-only digest: pending responses (connected, has_response), active requests (connected, hint)
     fn digest(&self) -> String {
         let p: Vec<String> = self.pendings.iter().map(|(h, p)| format!("{}:{}{}", h, p.is_connected() as u8, p.has_response() as u8)).collect();
-        let a: Vec<String> = self.actives.iter().map(|(h, j, _, a)| format!("{}@{}:{}{}", h, j, a.is_connected() as u8, a.has_disconnect_hint() as u8)).collect();
+        let a: Vec<String> = self.actives.borrow().iter().map(|(h, j, _, a)| format!("{}@{}:{}{}", h, j, a.is_connected() as u8, a.has_disconnect_hint() as u8)).collect();
         format!("P[{}] A[{}]", p.join(","), a.join(","))
     }
 
@@ -229,6 +243,38 @@ impl<S: Service> Case<S> {
         let pre = cfg.pre;
         let b = fac.client_builder().backpressure_strategy(BackpressureStrategy::DiscardData);
         let b = if pre > 0 { b.override_request_preallocation(move |_| pre) } else { b };
+        // the handler runs whenever a delivery stalls (buffer full, no overflow, server attached); when a script is
+        // armed the scripted server polls INSIDE the handler; the answer is always "discard for this server"
+        let ctx = SendWrap((self.servers.clone(), self.actives.clone(), self.hstate.clone()));
+        let b = b.set_backpressure_handler(move |_info| {
+            let ctx = &ctx;
+            let (servers, actives, hstate) = &ctx.0;
+            let script = hstate.borrow_mut().script.take();
+            if let Some(j) = script {
+                let srv = servers.borrow();
+                let res = match srv[j].as_ref() {
+                    None => "x".to_string(),
+                    Some(s) => {
+                        let b = match s.has_requests() { Ok(b) => format!("b{}", b as u8), Err(_) => "e:conn".into() };
+                        let r = match s.receive() {
+                            Ok(None) => "n".to_string(),
+                            Ok(Some(a)) => {
+                                let hid = *a.payload();
+                                let d = format!("{:?}", a);
+                                let rid = num_after(&d, "request_id: ").unwrap_or(999);
+                                let ch = num_after(&d, "channel_id: ").unwrap_or(999);
+                                actives.borrow_mut().push((hid, j, 0, a));
+                                format!("a{}:{}:{}", hid, rid, ch)
+                            }
+                            Err(e) => recv_err(e),
+                        };
+                        format!("{}~{}", b, r)
+                    }
+                };
+                hstate.borrow_mut().result = Some(res);
+            }
+            BackpressureAction::DiscardData
+        });
         b.create().map_err(|e| format!("e:{:?}", e))
     }
 
@@ -248,10 +294,10 @@ impl<S: Service> Case<S> {
             }
             Op::Cd(i) => match self.clients[i].take() { Some(c) => { drop(c); "ok".into() } None => "-".into() },
             Op::Sc(j) => {
-                if self.servers[j].is_some() { return "-".into(); }
-                match self.create_server(fac, cfg) { Ok(s) => { self.servers[j] = Some(s); "ok".into() } Err(e) => e }
+                if self.servers.borrow()[j].is_some() { return "-".into(); }
+                match self.create_server(fac, cfg) { Ok(s) => { self.servers.borrow_mut()[j] = Some(s); "ok".into() } Err(e) => e }
             }
-            Op::Sd(j) => match self.servers[j].take() { Some(s) => { drop(s); "ok".into() } None => "-".into() },
+            Op::Sd(j) => { let t = self.servers.borrow_mut()[j].take(); match t { Some(s) => { drop(s); "ok".into() } None => "-".into() } }
             Op::L(i) => {
                 let Some(c) = self.clients[i].as_ref() else { return "-".into() };
                 let hid = self.next_hid;
@@ -288,6 +334,19 @@ impl<S: Service> Case<S> {
                     Err(e) => rsend_err(e),
                 }
             }
+            Op::Qh(i, j) => {
+                let Some(c) = self.clients[i].as_ref() else { return "-".into() };
+                let hid = self.next_hid;
+                self.next_hid += 1;
+                { let mut h = self.hstate.borrow_mut(); h.script = Some(j); h.result = None; }
+                let r = c.send_copy(hid);
+                let hres = { let mut h = self.hstate.borrow_mut(); h.script = None; h.result.take() };
+                let hres = hres.unwrap_or_else(|| "-".to_string());
+                match r {
+                    Ok(p) => { let n = p.number_of_server_connections(); self.pendings.push((hid, p)); format!("ok{}~{}", n, hres) }
+                    Err(e) => format!("{}~{}", rsend_err(e), hres),
+                }
+            }
             Op::Pr(k) => {
                 let Some((_, p)) = self.pendings.get(k) else { return "-".into() };
                 match p.receive() {
@@ -308,7 +367,8 @@ impl<S: Service> Case<S> {
             }
             Op::Rx(m) => { if m >= self.resps.len() { return "-".into(); } drop(self.resps.remove(m)); "ok".into() }
             Op::Sr(j) => {
-                let Some(s) = self.servers[j].as_ref() else { return "-".into() };
+                let srv = self.servers.borrow();
+                let Some(s) = srv[j].as_ref() else { return "-".into() };
                 match s.receive() {
                     Ok(None) => "n".into(),
                     Ok(Some(a)) => {
@@ -316,24 +376,27 @@ impl<S: Service> Case<S> {
                         let d = format!("{:?}", a);
                         let rid = num_after(&d, "request_id: ").unwrap_or(999);
                         let ch = num_after(&d, "channel_id: ").unwrap_or(999);
-                        self.actives.push((hid, j, 0, a));
+                        self.actives.borrow_mut().push((hid, j, 0, a));
                         format!("a{}:{}:{}", hid, rid, ch)
                     }
                     Err(e) => recv_err(e),
                 }
             }
             Op::Sh(j) => {
-                let Some(s) = self.servers[j].as_ref() else { return "-".into() };
+                let srv = self.servers.borrow();
+                let Some(s) = srv[j].as_ref() else { return "-".into() };
                 match s.has_requests() { Ok(b) => format!("b{}", b as u8), Err(_) => "e:conn".into() }
             }
             Op::As(a) => {
-                let Some((hid, j, seq, act)) = self.actives.get_mut(a) else { return "-".into() };
+                let mut acts = self.actives.borrow_mut();
+                let Some((hid, j, seq, act)) = acts.get_mut(a) else { return "-".into() };
                 let v = *hid * 10000 + (*j as u64) * 1000 + *seq;
                 *seq += 1;
                 match act.send_copy(v) { Ok(()) => "ok".into(), Err(e) => send_err(e) }
             }
             Op::Al(a) => {
-                let Some((hid, j, seq, act)) = self.actives.get_mut(a) else { return "-".into() };
+                let mut acts = self.actives.borrow_mut();
+                let Some((hid, j, seq, act)) = acts.get_mut(a) else { return "-".into() };
                 let v = *hid * 10000 + (*j as u64) * 1000 + *seq;
                 *seq += 1;
                 match act.loan_uninit() {
@@ -346,7 +409,7 @@ impl<S: Service> Case<S> {
                 match self.rloans.remove(0).send() { Ok(()) => "ok".into(), Err(e) => send_err(e) }
             }
             Op::Ax => { if self.rloans.is_empty() { return "-".into(); } drop(self.rloans.remove(0)); "ok".into() }
-            Op::Ad(a) => { if a >= self.actives.len() { return "-".into(); } drop(self.actives.remove(a)); "ok".into() }
+            Op::Ad(a) => { if a >= self.actives.borrow().len() { return "-".into(); } let x = self.actives.borrow_mut().remove(a); drop(x); "ok".into() }
         }
     }
 
@@ -356,13 +419,13 @@ impl<S: Service> Case<S> {
         self.rloans.clear();
         self.loans.clear();
         self.pendings.clear();
-        self.actives.clear();
+        self.actives.borrow_mut().clear();
         self.clients = [None, None];
-        self.servers = [None, None];
+        *self.servers.borrow_mut() = [None, None];
     }
 }
 
-fn run_case<S: Service>(fac: &Fac<S>, variant: &str, cfg: &Cfg, setup: &[Op], prologue: &[Op], ops: &[Op], out: &mut Out) -> bool {
+fn run_case<S: Service + 'static>(fac: &Fac<S>, variant: &str, cfg: &Cfg, setup: &[Op], prologue: &[Op], ops: &[Op], out: &mut Out) -> bool {
     let mut case = Case::<S>::new();
     out.line(&format!("C {} {}", variant, cfg.text()));
     let mut alive = true;
@@ -486,7 +549,7 @@ fn make_service<S: Service>(node: &Node<S>, cfg: &Cfg, tag: &str) -> Fac<S> {
         .expect("service")
 }
 
-fn run_all<S: Service>(a: &[String], config: &Config, out: &mut Out) {
+fn run_all<S: Service + 'static>(a: &[String], config: &Config, out: &mut Out) {
     let mode = a[1].as_str();
     let variant = a[2].as_str();
     let cfg = Cfg::parse(&a[3]);
